@@ -180,9 +180,10 @@ def run(ctx: Ctx):
         if r3 != {"eq": True, "eqr": True, "ne": False}:
             ctx.fail("P:C20:eq-child-order", {"t": t}, r3, None)
     # ---- pairs: equality
-    pair_runs = [dict(MaxN=3, Names={"VEVENT", "VTODO"}, Props={"none", "p"})]
+    pair_runs = [dict(MaxN=3, Names={"VEVENT", "VTODO"}, Props={"none", "p"}),
+                 dict(MaxN=4, Names={"VEVENT", "VTODO"}, Props={"none"})]      # duplicates among three children
     if not ctx.quick:
-        pair_runs += [dict(MaxN=4, Names={"VEVENT", "VTODO"}, Props={"none"}),
+        pair_runs += [
                       dict(MaxN=3, Names={"VEVENT", "VTODO", "X-U"}, Props={"none", "pq"})]
     for pr in pair_runs:
         rp = ctx.mc("MC_ComponentTree", cfg_text(spec="Spec", constants={**pr, "Pairs": True, "Old": False},
